@@ -539,13 +539,21 @@ Example accepts_ex : accepts
     LPacket (pk 8 101); LPacket (pk 0 100); LPacket (pk 99 100); LPacket (pk 7 100); LPacket (pk 8 100);
     LLookup 0; LLookup 1; LLookup 2; LLookup 3; LLookup 4;
     LHandoff 3; LHandoff 0; LReturn 0; LReturn 1; LGiveUp 4; LPacket (pk 7 101); LLookup 5],
-   [Some 100%N; Some 101%N]) = true.
+   [Some 100%N; Some 101%N], [(4%nat, [8; 7]); (17%nat, [8])], []) = true.
 Proof. vm_compute. reflexivity. Qed.
 
 (* a caller that ends up with another caller's payload is not a run of the machine *)
 Example rejects_cross : accepts
   ([LRegister 7 false; LRegister 8 false; LSendOk 0; LSendOk 1; LPacket (pk 8 101); LLookup 0; LHandoff 0;
-    LReturn 1; LTimeout 0; LReturn 0], [Some 101%N; None]) = false.
+    LReturn 1; LTimeout 0; LReturn 0], [Some 101%N; None], [], []) = false.
+Proof. vm_compute. reflexivity. Qed.
+
+(* an implementation table holding an id the machine's table does not hold, or an entry left behind, is rejected *)
+Example rejects_snap : accepts
+  ([LRegister 7 false; LSendOk 0; LTimeout 0; LReturn 0], [None], [(2%nat, [8])], []) = false.
+Proof. vm_compute. reflexivity. Qed.
+Example rejects_left : accepts
+  ([LRegister 7 false; LSendOk 0; LTimeout 0; LReturn 0], [None], [(2%nat, [7])], [7]) = false.
 Proof. vm_compute. reflexivity. Qed.
 
 (* the hypothesis is needed: if two outstanding calls share an id, the second Store overwrites the first entry and the
